@@ -23,17 +23,48 @@ func vhElemSig(s Storable) (uint64, uint64) {
 	return 0, 0
 }
 
+// vhTypeSig: the type identifier carried by a root's extra data (0 = none).
+func vhTypeSig(ti TypeInfo) uint64 {
+	switch t := ti.(type) {
+	case vTypeInfo:
+		return t.id + 1
+	case vCompositeTypeInfo:
+		return t.id + 1 + 1<<32
+	}
+	return 0
+}
+
+// vhInlinedSig: content signature of a container stored inline in an element
+// (its own elements and type are part of the enclosing register).
+func vhInlinedSig(s Storable) []uint64 {
+	s = unwrapStorable(s)
+	switch e := s.(type) {
+	case *ArrayDataSlab:
+		return vhSlabSig(e)
+	case *MapDataSlab:
+		return vhSlabSig(e)
+	}
+	return nil
+}
+
 func vhSlabSig(slab Slab) []uint64 {
 	var sig []uint64
 	switch s := slab.(type) {
 	case *ArrayDataSlab:
 		sig = append(sig, 1, uint64(s.header.size), uint64(s.header.count), s.next.IndexAsUint64(), uint64(len(s.elements)))
+		if s.extraData != nil {
+			sig = append(sig, vhTypeSig(s.extraData.TypeInfo))
+		}
 		for _, e := range s.elements {
 			a, b := vhElemSig(e)
 			sig = append(sig, a, b)
+			sig = append(sig, vhInlinedSig(e)...)
 		}
 	case *ArrayMetaDataSlab:
 		sig = append(sig, 2, uint64(s.header.size), uint64(s.header.count), uint64(len(s.childrenHeaders)))
+		if s.extraData != nil {
+			sig = append(sig, vhTypeSig(s.extraData.TypeInfo))
+		}
 		for i, h := range s.childrenHeaders {
 			sig = append(sig, h.slabID.IndexAsUint64(), uint64(h.size), uint64(h.count), uint64(s.childrenCountSum[i]))
 		}
@@ -47,11 +78,12 @@ func vhSlabSig(slab Slab) []uint64 {
 					a, _ := vhElemSig(se.key)
 					b, c := vhElemSig(se.value)
 					sig = append(sig, a, b, c)
+					sig = append(sig, vhInlinedSig(se.value)...)
 				}
 			}
 		}
 		if s.extraData != nil {
-			sig = append(sig, s.extraData.Count)
+			sig = append(sig, s.extraData.Count, vhTypeSig(s.extraData.TypeInfo))
 		}
 	case *MapMetaDataSlab:
 		sig = append(sig, 4, uint64(s.header.size), uint64(s.header.firstKey), uint64(len(s.childrenHeaders)))
@@ -59,7 +91,7 @@ func vhSlabSig(slab Slab) []uint64 {
 			sig = append(sig, h.slabID.IndexAsUint64(), uint64(h.size), uint64(h.firstKey))
 		}
 		if s.extraData != nil {
-			sig = append(sig, s.extraData.Count)
+			sig = append(sig, s.extraData.Count, vhTypeSig(s.extraData.TypeInfo))
 		}
 	case *StorableSlab:
 		a, b := vhElemSig(s.storable)
